@@ -380,6 +380,18 @@ let eval (x : sx) : sx =
            | Ok e -> go e r (L [A "ok"; stree e] :: acc)
            | Err k -> List.rev (L [A "err"; A (err_name k)] :: acc)) in
       L (A "hist" :: go (tree t) ops [])
+  | L (A "chist" :: t :: ops) ->
+      (* a history of tag / index operations on ONE container: a read (get_tag) is answered and the container stays, an
+         edit replaces it, a rejected operation (KeyError, IndexError) leaves it as it was *)
+      let rec go (cur : ev) (ops : sx list) (acc : sx list) : sx list =
+        match ops with
+        | [] -> List.rev acc
+        | L [A "get_tag"; tg] :: r -> go cur r (rtree (get_by_tag (children cur) (zi tg)) :: acc)
+        | op :: r ->
+          (match apply_op cur op with
+           | Ok e -> go e r (L [A "ok"; stree e] :: acc)
+           | Err k -> go cur r (L [A "err"; A (err_name k)] :: acc)) in
+      L (A "chist" :: go (tree t) ops [])
   | L [A "copyop"; A op; t] ->
       (* aliasing pattern of the result and the identities it shares with the source *)
       let t = gtree t in
@@ -450,6 +462,11 @@ let eval (x : sx) : sx =
       L [A "ok"; sb (d_lt d r); sb (d_le d r); sb (d_eq d r); sb (d_ne d r); sb (d_ge d r); sb (d_gt d r)]
   | L [A "arith"; o; d; r] ->
       (match arith (aop_of o) (durv_of d) (qq r) with
+       | Ok v -> L [A "ok"; skind_s v.dk; sz v.dt]
+       | Err k -> rerr k)
+  | L [A "rarith"; o; d; r] ->
+      (* the plain number on the left: r op d *)
+      (match arith_r (aop_of o) (qq r) (durv_of d) with
        | Ok v -> L [A "ok"; skind_s v.dk; sz v.dt]
        | Err k -> rerr k)
   | L (A "durhist" :: k :: r0 :: us) ->
